@@ -119,6 +119,39 @@ class _Found(Exception):
     pass
 
 
+class _CaseTimeout(KeyboardInterrupt):  # (asyncio swallows other exceptions raised inside callbacks)
+    pass
+
+
+def _guarded(run: Callable[[Any], Outcome], case: Any, limit_s: float) -> Outcome:
+    """One evaluation under a wall-clock alarm and the process's address-space limit.  A case that runs away (only ever seen on
+    modified library code) is inconclusive - never a violation, never a hang of the whole run."""
+    import gc
+    import signal
+
+    def on_alarm(signum, frame):  # noqa: ANN001
+        raise _CaseTimeout()
+
+    old = signal.signal(signal.SIGALRM, on_alarm)
+    signal.setitimer(signal.ITIMER_REAL, limit_s)
+    try:
+        return run(case)
+    except _CaseTimeout:
+        out = Outcome()
+        out.inconclusive = True
+        out.cls("watchdog-wall-clock")
+        return out
+    except MemoryError:
+        gc.collect()
+        out = Outcome()
+        out.inconclusive = True
+        out.cls("watchdog-memory")
+        return out
+    finally:
+        signal.setitimer(signal.ITIMER_REAL, 0)
+        signal.signal(signal.SIGALRM, old)
+
+
 def _run_sub_shard(check: Check, sub: SubCheck, tier: str, seed: int, shard: int, nshards: int) -> dict:
     import hypothesis
     from hypothesis import HealthCheck, Phase, given, settings
@@ -139,7 +172,7 @@ def _run_sub_shard(check: Check, sub: SubCheck, tier: str, seed: int, shard: int
     shrink_budget = 25.0 if tier == "quick" else 120.0
 
     def evaluate(case: Any, counting: bool = True) -> list[Violation]:
-        out = sub.run(case)
+        out = _guarded(sub.run, case, float(os.environ.get("VERIF_CASE_LIMIT_S") or (180.0 if tier == "quick" else 600.0)))
         if counting:
             stats["evaluations"] += 1
             for c in out.classes:
@@ -270,6 +303,14 @@ def _run_sub_shard(check: Check, sub: SubCheck, tier: str, seed: int, shard: int
 def shard_main(check: Check, tier: str, seed: int, shard: int, nshards: int, only: str | None, out: Path) -> None:
     if check.setup:
         check.setup()
+    try:
+        import resource
+
+        # address-space ceiling per shard (children such as the libFuzzer engine lift it again: the hard limit is untouched)
+        _soft, hard = resource.getrlimit(resource.RLIMIT_AS)
+        resource.setrlimit(resource.RLIMIT_AS, (3 * 2**30, hard))
+    except Exception:  # noqa: BLE001
+        pass
     res = []
     for sub in check.subchecks:
         if only and sub.name not in only.split(",") and not any(sub.name.startswith(o[:-1]) for o in only.split(",") if o.endswith("*")):
